@@ -45,3 +45,48 @@ Qed.
 
 Theorem combine_nothing o u : combine_parsed [] o u = Ok None.
 Proof. reflexivity. Qed.
+
+(* ---- dedup never mentions a license that the input does not mention ---- *)
+Lemma flat_map_incl {A B} (f : A -> list B) (l1 l2 : list A) :
+  (forall y, In y l1 -> In y l2) -> incl (flat_map f l1) (flat_map f l2).
+Proof.
+  intros H b Hb. apply in_flat_map in Hb as [y [Hy Hb]]. apply in_flat_map. exists y. split; [apply H; exact Hy | exact Hb].
+Qed.
+
+Lemma combine_literals ys o e : combine_parsed ys o true = Ok (Some e) ->
+  incl (literals e) (flat_map literals ys).
+Proof.
+  intro H. destruct ys as [|y0 ys0]; [discriminate|].
+  rewrite combine_unique_rule in H by discriminate.
+  pose proof (uniq_members (y0 :: ys0)) as M.
+  destruct (uniq_by_str (y0 :: ys0)) as [|u [|u2 us]].
+  - destruct o; simpl in H; discriminate.
+  - inversion H; subst. intros a Ha. apply in_flat_map. exists e. split; [apply M; left; reflexivity | exact Ha].
+  - destruct o; simpl in H; inversion H; subst; simpl literals;
+      change (literals u ++ literals u2 ++ flat_map literals us) with (flat_map literals (u :: u2 :: us));
+      apply flat_map_incl; exact M.
+Qed.
+
+Lemma dedup_children_literals : forall xs ys,
+  Forall (fun x => forall x', dedup x = Ok x' -> incl (literals x') (literals x)) xs ->
+  dedup_children xs = Ok ys -> incl (flat_map literals ys) (flat_map literals xs).
+Proof.
+  induction xs as [|x xs IH]; intros ys HF H; simpl in H.
+  - inversion H; subst. intros a [].
+  - inversion HF as [|? ? Hx Hr]; subst. rewrite dedup_child_lit in H.
+    destruct (dedup x) as [x'| | | | |] eqn:Ex; simpl in H; try discriminate.
+    destruct (dedup_children xs) as [r| | | | |] eqn:Er; simpl in H; try discriminate.
+    inversion H; subst. simpl. apply incl_app_app; [apply Hx; reflexivity | apply IH; [exact Hr | reflexivity]].
+Qed.
+
+Theorem dedup_literals : forall e e', dedup e = Ok e' -> incl (literals e') (literals e).
+Proof.
+  induction e as [a|xs IH|xs IH] using expr_ind'; intros e' H.
+  - simpl in H. inversion H; subst. apply incl_refl.
+  - rewrite dedup_and in H. destruct (dedup_children xs) as [ys| | | | |] eqn:E; simpl in H; try discriminate.
+    unfold unsome in H. destruct (combine_parsed ys OpAnd true) as [[c|]| | | | |] eqn:C; simpl in H; try discriminate.
+    inversion H; subst. simpl. eapply incl_tran; [apply (combine_literals ys OpAnd e' C) | apply dedup_children_literals; assumption].
+  - rewrite dedup_or in H. destruct (dedup_children xs) as [ys| | | | |] eqn:E; simpl in H; try discriminate.
+    unfold unsome in H. destruct (combine_parsed ys OpOr true) as [[c|]| | | | |] eqn:C; simpl in H; try discriminate.
+    inversion H; subst. simpl. eapply incl_tran; [apply (combine_literals ys OpOr e' C) | apply dedup_children_literals; assumption].
+Qed.
